@@ -65,7 +65,7 @@ def cases(rng, tier, shard, nshards):
         else:
             step = dict(kind='min', opts=dict(base_step=float(10.0 ** rng.uniform(-5, -3)), num_steps=int(rng.integers(5, 10)),
                                               step_ratio=2.0))
-        variant = str(rng.choice(['plain', 'plain', 'plain', 'length1', 'complex_valued', 'scalar_x', 'integer_x']))
+        variant = str(rng.choice(['plain', 'plain', 'plain', 'length1', 'complex_valued', 'scalar_x', 'integer_x', 'zero_d_output']))
         if variant == 'complex_valued' and method in ('complex', 'multicomplex'):
             variant = 'plain'
         n = 1 if variant == 'scalar_x' else int(rng.integers(1, 7))
@@ -142,6 +142,10 @@ def run_case(case, ctx):
         fscale *= 1.2
     elif variant == 'length1':
         f = lambda z: np.array([f0(z)])
+    elif variant == 'zero_d_output':
+        # the value comes back as a 0-d array (np.asarray / np.where / np.squeeze of a 1 x 1 result): a mutable object
+        ctx.count('zero_d_output_cases')
+        f = lambda z: np.asarray(f0(z))
     else:
         f = f0
     if variant in ('length1',):
